@@ -18,5 +18,6 @@ def run(tier, seed):
         chk.add_case(json.dumps(r['spec'], sort_keys=True), o['n'] > 1)
     ff_cases(chk, rng, 24 if tier == 'quick' else 200, (None, 'ideal', 'real'))
     nor = 16 if (tier == 'quick' and not chk.broken) else (48 if tier == 'quick' else 240)
-    run_oracle(chk, rng, nor, 'ff.c01_oracle', 'c01-oracle', (None, None, 'ideal', 'ideal', 'real'))
+    run_oracle(chk, rng, nor, 'ff.c01_oracle', 'c01-oracle', (None, None, 'ideal', 'ideal', 'real'),
+               probes=[os.path.join(ROOT, 'probes', 'C01-exact-kernel.json')])
     return chk.finish()
